@@ -422,8 +422,73 @@ def gen_history(rng, faults: bool) -> Dict[str, Any]:
     recycle_at = rng.randrange(nops) if rng.random() < 0.12 else -1
     broken_at = rng.randrange(nops) if rng.random() < 0.25 else -1
     family_at = rng.randrange(nops) if rng.random() < 0.15 else -1
+    override_at = rng.randrange(nops) if rng.random() < 0.12 else -1
+    adaptive_at = rng.randrange(nops) if rng.random() < 0.12 else -1
     ngen = 0
     for k in range(nops):
+        if k == override_at:
+            # a plain environment uses a standard function, THEN replaces that function's name on
+            # itself (its own earlier queries change meaning by design and are not judged any more):
+            # the module-level functions, other plain environments and its own new compiles must
+            # each behave as they do alone
+            eid = f"g{ngen}"
+            ngen += 1
+            ops.append({"op": "new_env", "id": eid, "spec": {"funcs": []}})
+            name = rng.choice(("length", "count", "value", "match", "search"))
+            q = {"length": rng.choice(("$[?length(@.a) == 1]", "$..[?length(@) > 1]")), "count": rng.choice(("$[?count(@.*) > 1]", "$..[?count(@.*) == 1]")), "value": "$[?value(@.*) == 1]", "match": "$..[?match(@.a, 'a.*')]", "search": "$..[?search(@.b, '[ab]')]"}[name]
+            sig = {"length": (["V"], "V"), "count": (["N"], "V"), "value": (["N"], "V"), "match": (["V", "V"], "L"), "search": (["V", "V"], "L")}[name]
+            if rng.random() < 0.25:
+                ops.append({"op": "env_call", "env": "module", "q": q, "doc": rng.choice(docs), "entry": "find"})
+            cid = f"c{len(compiled)}"
+            ops.append({"op": "compile", "id": cid, "env": eid, "q": q})
+            compiled.append(cid)
+            if rng.random() < 0.5:
+                ops.append({"op": "apply", "c": cid, "doc": rng.choice(docs), "entry": "find"})
+            ops.append({"op": "register", "env": eid, "name": name, "override": True, "fspec": {"args": sig[0], "ret": sig[1], "behav": rng.choice(("const", "shape", "const"))}})
+            other = f"g{ngen}"
+            ngen += 1
+            ops.append({"op": "new_env", "id": other, "spec": {"funcs": []}})
+            users = [("module", "env_call"), (other, "env_call"), (other, "compile"), (eid, "compile"), ("module", "compile")]
+            rng.shuffle(users)
+            for e, how in users[: rng.choice((3, 4, 5))]:
+                d = rng.choice(docs)
+                if how == "env_call":
+                    ops.append({"op": "env_call", "env": e, "q": q, "doc": d, "entry": rng.choice(("find", "finditer", "find_one"))})
+                else:
+                    cid = f"c{len(compiled)}"
+                    ops.append({"op": "compile", "id": cid, "env": e, "q": q})
+                    compiled.append(cid)
+                    ops.append({"op": "apply", "c": cid, "doc": d, "entry": "find"})
+            continue
+        if k == adaptive_at:
+            # one compiled query with && / || is applied again and again to data on which one operand
+            # decides, then to data on which the OTHER operand would have decided first -- and the one
+            # that is now asked first raises (a descendant query over data beyond a small limit, a
+            # function that raises).  What a query "learned" from earlier data must not show.
+            eid = f"g{ngen}"
+            ngen += 1
+            ops.append({"op": "new_env", "id": eid, "spec": {"funcs": [], "attrs": {"max_recursion_depth": 3}}})
+            q = rng.choice(("$[?@.a && @..b]", "$[?@.a || @..b]", "$[?@..b && @.a]", "$[?@..b || @.a]", "$[?@.a == 1 && @..b]", "$[?@.c > 2 || count(@..b) > 0]", "$[?!@.a && @..b]"))
+            warm_kind = rng.random() < 0.5
+            n = rng.randint(4, 10)
+            warm = [({"a": 1, "c": i} if warm_kind else {"a": 0, "b": 1, "c": i}) for i in range(n)]
+            deep: Any = {"b": 1}
+            for _ in range(rng.choice((4, 6))):
+                deep = {"x": [deep]}
+            probes = [[{"a": 0, "x": deep}], [{"x": deep}], [{"a": 1, "b": 1, "x": deep}], [{"a": 1, "c": 5, "x": deep}, {"a": 0}]]
+            wid, pid = f"d{len(docs)}", f"d{len(docs) + 1}"
+            ops.append({"op": "new_doc", "id": wid, "spec": {"json": warm}})
+            ops.append({"op": "new_doc", "id": pid, "spec": {"json": rng.choice(probes)}})
+            docs.extend((wid, pid))
+            cid = f"c{len(compiled)}"
+            ops.append({"op": "compile", "id": cid, "env": eid, "q": q})
+            compiled.append(cid)
+            if rng.random() < 0.3:
+                ops.append({"op": "apply", "c": cid, "doc": pid, "entry": "find"})
+            for _ in range(rng.choice((2, 3, 5))):
+                ops.append({"op": "apply", "c": cid, "doc": wid, "entry": rng.choice(("find", "find", "finditer"))})
+            ops.append({"op": "apply", "c": cid, "doc": pid, "entry": rng.choice(("find", "finditer"))})
+            continue
         if k == family_at:
             # an inheritance chain: setup_function_extensions() is written once in a base class and
             # driven by class attributes its subclasses override (other functions, other types under
